@@ -370,7 +370,15 @@ func (s *Cron) work(part string) func(tx *bolt.Tx) error {
 		max := []byte(time.Now().UTC().Format(time.RFC3339Nano))
 		limit := 10
 
+		// RFC3339Nano trims trailing zeros, so the keys do not
+		// sort chronologically: "...:01.5Z" < "...:01Z".  Check
+		// the instant, too.
+		now := time.Now().UTC()
+
 		for k, v := c.Seek(min); k != nil && bytes.Compare(k, max) <= 0; k, v = c.Next() {
+			if at, err := time.Parse(time.RFC3339Nano, strings.SplitN(string(k), Separator, 2)[0]); err == nil && now.Before(at) {
+				continue
+			}
 			log.Printf("Cron.work %s %s %s", part, string(k), string(v))
 			if limit <= 0 {
 				break
